@@ -222,6 +222,24 @@ PROPS["C11"] = dict(
     trusted=COMMON_TRUST,
 )
 
+PROPS["C20"] = dict(
+    units=[("verus", "filtermode"), ("verus", "pcapio")],
+    explanation="run_filters (main.rs) is verified against a world of pending input packets and written output, with VM::push_filter_frame / run / pop_filter_frame recording what "
+                "they were asked: every filter frame pushed in the loop saw NP = the 1-based index of a packet of the input, that packet as the current packet and PL/WL/TSS/TSU = its record "
+                "header fields; after each completed filter the packets written to stdout are exactly the current packets of the pops that returned true, in order (one write per true, none otherwise); "
+                "the end filter is pushed at most once, last, with NP = the number of packets read and PL/WL null; without -s exactly one global header equal to the input's is written, to stdout, "
+                "with -s no pcap bytes at all. set_curr_pkt and update_builtin_var are verified on their real bodies (which slot gets which field). run_buf: the non-filter program has run exactly "
+                "once and NP is 0 when run_filters is entered. Pcap::new_like / new_with_header (pcapio unit): the header written is the input's, byte for byte.",
+    not_covered=["that every filter is run for every packet when a filter fails at run time (the loop breaks; the property is silent on errors)",
+                 "'as modified so far': packets are shared Rc values, so a write serialises the current state (C15/C17 cover serialisation)",
+                 "the filter bodies themselves (compile_filter_statement / emit_action_stmt: C02 territory) and what 'pattern is true' means: pop_filter_frame's bool is taken as given",
+                 "stdout text of print builtins with -s"],
+    assumptions=["VM::run / push_filter_frame / pop_filter_frame do not write builtinvars or curr_pkt (frame scans: one writer each)",
+                 "fewer than 2^63 packets on stdin (NP is an i64 counter)",
+                 "PcapPacket getters return the record header fields as read (one-line bodies in builtins/pcap.rs)"],
+    trusted=COMMON_TRUST,
+)
+
 # every property not claimed above, with the reason (kept current; see DESIGN.md §6)
 NOT_APPLICABLE = {
     "C01": "not built yet (scanner/parser units pending)",
